@@ -130,10 +130,22 @@ func VerifRunFrame() {
 // ---- Run: cancellation and close requests
 
 type verifCtx struct {
-	done    chan struct{}
-	open    chan struct{}
-	closeAt int // Done() reports a cancelled context from its closeAt-th call on (0 = never)
-	calls   int
+	done     chan struct{}
+	open     chan struct{}
+	closeAt  int // Done() reports a cancelled context from its closeAt-th call on (0 = never)
+	calls    int
+	deadline bool // the context ends by its deadline rather than by an explicit cancel
+}
+
+// poll counts an inspection of the context. Once the context has reported that it is over, Run must not keep polling it:
+// a few more polls are tolerated, beyond that the run is cut off (which also keeps a Run that never stops finite).
+func (c *verifCtx) poll() {
+	c.calls++
+	if c.closeAt != 0 {
+		ok := c.calls <= c.closeAt+3
+		vAssert("run-stops-once-the-context-is-over", ok)
+		vAssume(ok)
+	}
 }
 
 var _ context.Context = (*verifCtx)(nil)
@@ -151,15 +163,18 @@ func (verifCancelled) Error() string { return "context cancelled" }
 
 // Err follows the context contract: non-nil exactly when Done() is (or would now be) closed; it counts as a poll too
 func (c *verifCtx) Err() error {
-	c.calls++
+	c.poll()
 	if c.closeAt != 0 && c.calls >= c.closeAt {
-		return verifCancelled{}
+		if c.deadline {
+			return context.DeadlineExceeded
+		}
+		return context.Canceled
 	}
 	return nil
 }
 func (c *verifCtx) Value(key interface{}) interface{} { return nil }
 func (c *verifCtx) Done() <-chan struct{} {
-	c.calls++
+	c.poll()
 	if c.closeAt != 0 && c.calls >= c.closeAt {
 		return c.done
 	}
@@ -182,6 +197,7 @@ func VerifRun() {
 	}
 	vAssume(closeAt != 0 || closeAfter != 0) // otherwise Run never returns
 	ctx := newVerifCtx(closeAt)
+	ctx.deadline = vBool("deadline")
 
 	gb.Run(ctx)
 
